@@ -129,11 +129,19 @@ class Heap:
             o.members_has = has
             return m
 
-        @lazy("aliases")
         def _aliases():
             m, has = heap.smap(tag + "_aliases", lambda k: heap.obj(f"{tag}.a[{zstr(k).sexpr()[:24]}]", ["Alias"]), iterable=True)
             o.aliases_has = has
             return m
+
+        def aliases_val(P_, o_):
+            # an Alias has no table of its own: the real property forwards to its final target (and raises what that raises)
+            if P_.resolve_cls(o_) == "Alias":
+                member = P_.find_class_member("Alias", "aliases")
+                if member is not None and member[0] == "property":
+                    return P_.call_closure(member[1], [o_], {})
+            return _aliases()
+        o.lazy["aliases"] = aliases_val
 
         def parent_val():
             if tag.count(".parent") >= 3:
